@@ -134,6 +134,29 @@ fn run_late(r1: u64, k1: u64, r2: u64, k2: u64) -> Result<u64, (String, String)>
     Ok(8)
 }
 
+// ---- where the stack is: stack-argument signatures with the stack pointer at the ends of the address space
+/// One call of a subroutine whose signature has `n` stack arguments, with R6 = `r6`: the frame's arguments are the `n` words at R6, R6+1, ...
+/// (addresses wrap at xFFFF), read as raw memory cells.
+const EDGE_SP: [u16; 12] = [0xFFFC, 0xFFFD, 0xFFFE, 0xFFFF, 0x0000, 0x0001, 0xFDFE, 0xFDFF, 0xFE00, 0x2FFE, 0x2FFF, 0x7FFF];
+fn run_edge(r6: u16, n: usize) -> Result<u64, (String, String)> {
+    let mut m = Machine::user();
+    m.debug_frames = true; m.ignore_priv = true;
+    m.regs = [1, 2, 3, 4, 5, 6, r6, 0];
+    for (k, w) in [0x4801u16, 0xF025, 0xC1C0].iter().enumerate() { m.pokes.push((0x3000 + k as u16, *w)); }
+    let names = ["a", "b", "c", "d"];
+    let what = format!("call of a subroutine with {n} stack argument(s) while R6 = x{r6:04X}");
+    let mut p = build(&m);
+    for i in 0..n as u16 { let a = r6.wrapping_add(i); if !(0x3000..0x3003).contains(&a) { p.sim.mem[a].set(0x1110 * (i + 1)); p.rf.set_mem(a, 0x1110 * (i + 1)); } }
+    p.sim.frame_stack.set_subroutine_def(0x3002, ParameterList::with_calling_convention(&names[..n]));
+    let exp: Vec<u16> = (0..n as u16).map(|i| p.sim.mem[r6.wrapping_add(i)].get()).collect();
+    step_compare(&mut p, false)?;
+    let Some(fs) = p.sim.frame_stack.frames() else { return Err(("frames-missing".into(), format!("{what}: frames() is None"))) };
+    let Some(f) = fs.last() else { return Err(("depth".into(), format!("{what}: no frame after the call"))) };
+    let ga: Vec<u16> = f.arguments.iter().map(|w| w.get()).collect();
+    if ga != exp { return Err(("frame-arguments:stack-at-the-edge".into(), format!("{what}: frame arguments {ga:x?}, the words at R6.. are {exp:x?}"))); }
+    Ok(1)
+}
+
 // ---- strict mode: a step that strict mode rejects has executed nothing, so it cannot have entered or left a subroutine
 /// words 0-8 at position k of the program: JSR +0, JSR +1, RET, LD R7 <- never-written cell, LD R7 <- cell pointing at never-written memory, ADD, JSRR R1, TRAP x21, JMP R1
 fn strict_word(sel: u64, k: u16) -> u16 {
@@ -247,6 +270,12 @@ pub fn run_engine(ctx: &Ctx) -> Report {
         }
     });
     rep.absorb(r);
+    let r = sweep(ctx, EDGE_SP.len() as u64 * 4, 4, |k, acc| {
+        let (r6, n) = (EDGE_SP[(k / 4) as usize], (k % 4) as usize + 1);
+        acc.evals += 1; acc.count("stack_argument_frames_at_the_edges", 1);
+        match run_edge(r6, n) { Ok(s2) => { acc.transitions += s2; acc.nontrivial += 1; } Err((sig, d)) => acc.violation(sig, format!("edge:{r6}:{n}"), d) }
+    });
+    rep.absorb(r);
     let r = sweep(ctx, 8 * 4 * 8 * 4, 16, |k, acc| {
         let (r1, k1, r2, k2) = (k % 8, k / 8 % 4, k / 32 % 8, k / 256);
         acc.evals += 1; acc.count("signatures_registered_while_running", 1);
@@ -268,6 +297,7 @@ pub fn run_engine(ctx: &Ctx) -> Report {
 pub fn replay(case: &str) -> Option<String> {
     let p: Vec<&str> = case.split(':').collect();
     if p.first() == Some(&"deep") { return run_deep(p.get(1)?.parse().ok()?, *p.get(2)? == "1").err().map(|(s, d)| format!("[{s}] {d}")); }
+    if p.first() == Some(&"edge") { return run_edge(p.get(1)?.parse().ok()?, p.get(2)?.parse().ok()?).err().map(|(s, d)| format!("[{s}] {d}")); }
     if p.first() == Some(&"late") { let n = |i: usize| -> Option<u64> { p.get(i)?.parse().ok() }; return run_late(n(1)?, n(2)?, n(3)?, n(4)?).err().map(|(s, d)| format!("[{s}] {d}")); }
     if p.first() == Some(&"s") { return run_strict(p.get(1)?.parse().ok()?, *p.get(2)? == "1").err().map(|(s, d)| format!("[{s}] {d}")); }
     let at: i64 = p.get(3)?.parse().ok()?;
